@@ -4,6 +4,7 @@ import gv
 PROP = "C13"
 REQ_PROPS = ["GV.Props.Props_C13"]
 REQ_RUN = ["GV.Rdf.Run"]
+BINS = ["c13"]
 
 TRUSTED = [
     "Coq 8.16.1 kernel (coqc; vm_compute used to run the models; no native_compute)",
@@ -14,7 +15,7 @@ TRUSTED = [
 ]
 
 # finding classes of the SPARQL layer (k_class of Rdf/Run.v) -> finding ids of known.d/C13.json
-KIDS = {1: "C13-S1", 2: "C13-S2", 3: "C13-S3", 4: "C13-S4", 5: "C13-S5", 6: "C13-S6", 7: "C13-S7", 8: "C13-S8", 9: "C13-S9"}
+KIDS = {1: "C13-S1", 2: "C13-S2", 3: "C13-S3", 4: "C13-S4", 5: "C13-S5", 6: "C13-S6", 7: "C13-S7", 8: "C13-S8"}
 KID_UPDATE = "C13-S10"
 
 
